@@ -365,6 +365,8 @@ def finish(prop, total, tier, seed, t0, known, jobs=None, replay_mode=False):
         kf = known.get((prop.ID, bucket))
         if kf is not None:
             known_hits[bucket] = int(total.bucket_hits[bucket])
+            if os.environ.get("VERIF_DUMP_KNOWN"):
+                write_replay(prop.ID, bucket, f, seed, tier)
             lines.append("KNOWN-FINDING: property=%s %s [%s; hit %d time(s) in this run]" % (
                 prop.ID, kf["what"], bucket, total.bucket_hits[bucket]))
             continue
